@@ -180,5 +180,41 @@ def wiring():
     return out
 
 
+def targets_through_convert():
+    """through the real convert(): a line that holds no statement (`20 :`, a bare `40`) is still a line - if something jumps to it
+    its label is emitted; and a jump to a line that does not exist is refused whatever the number (also above the label limit,
+    where the generated dispatcher lives)"""
+    from coco.b09.compiler import convert
+    from coco.b09 import compiler as C2
+
+    def run():
+        res = []
+        src = "10 GOTO 20\n20 :\n30 GOSUB 40\n40 \n50 IF A THEN 60\n60 ::\n70 ON A GOTO 80,20\n80 \n90 ON ERR GOTO 95\n95 :\n"
+        for filt, suffix in itertools.product((False, True), (False, True)):
+            try:
+                text = convert(src, add_standard_prefix=False, filter_unused_linenum=filt, add_suffix=suffix)
+                labs = sorted(int(l.split(" ")[0]) for l in text.split("\n") if l.split(" ")[0].isdigit())
+            except Exception as e:  # noqa
+                labs = "%s: %s" % (type(e).__name__, str(e)[:80])
+            targets = [20, 40, 60, 80, 95] + ([32700] if suffix else [])
+            want = sorted(targets if filt else [10, 20, 30, 40, 50, 60, 70, 80, 90, 95] + ([32700] if suffix else []))
+            res.append(ob("targets/empty lines keep their labels,filter=%d,suffix=%d" % (filt, suffix), labs == want, want, labs))
+        for name, prog in {"GOTO 40000": "10 GOTO 40000\n20 END\n", "GOSUB 32700": "10 GOSUB 32700\n", "ON list entry 32768": "10 ON A GOTO 10,10,32768\n",
+                           "THEN 50000": "10 IF A=1 THEN 50000\n", "ELSE 32701 nested": "10 IF A=1 THEN B=1 ELSE IF B=2 THEN 10 ELSE 32701\n",
+                           "ON ERR GOTO 33000": "10 ON ERR GOTO 33000\n", "ON BRK GOTO 65535": "10 ON BRK GOTO 65535\n",
+                           "GOTO 32700 with a handler": "10 ON ERR GOTO 10\n20 GOTO 32700\n", "GOTO 500": "10 GOTO 500\n"}.items():
+            for filt, suffix in itertools.product((False, True), (False, True)):
+                try:
+                    convert(prog, filter_unused_linenum=filt, add_suffix=suffix)
+                    got = "converted"
+                except C2.ParseError:
+                    got = "refused"
+                except Exception as e:  # noqa
+                    got = type(e).__name__
+                res.append(ob("targets/undefined %s,filter=%d,suffix=%d" % (name, filt, suffix), got == "refused", "refused (undefined line)", got))
+        return res
+    return guarded("targets", run)
+
+
 def obligations():
-    return reference_steps() + dispatcher() + wiring()
+    return reference_steps() + dispatcher() + wiring() + targets_through_convert()
